@@ -36,7 +36,10 @@ def incProp (text : List Char) (cs : List TextChange) : String :=
       match AnalyzedSource.new u.text with
       | .error e => s!"bad:{panicStr e}"
       | .ok f =>
-        if toksStr u.tokens != toksStr f.tokens then "bad:tokens"
+        -- the text the client holds: the changes applied to the plain text
+        let expected := cs.foldl (fun (acc : Option (List Char)) c => acc.bind (fun t => replaceRange t c.lo c.hi c.text)) (some text)
+        if expected != some u.text then "bad:text"
+        else if toksStr u.tokens != toksStr f.tokens then "bad:tokens"
         else if Dump.program u.ast != Dump.program f.ast then "bad:tree"
         else if Dump.table u.table != Dump.table f.table then "bad:table"
         else if sourceStr u != sourceStr f then "bad:diagnostics"
